@@ -237,7 +237,65 @@ def trailing_hole_case(src, idx, seed):
     return recipe, problems, {"trailing_hole_exact": 1 if recipe.get("trailing_hole_blocks", 1) % per_mib == 0 else 0}
 
 
+def beyond_4g_case(src, idx, seed):
+    """a filesystem larger than 4 GiB (sparse): metadata beyond byte 2^32 must come back from the qcow2 image at its own offset"""
+    T = lambda p_: os.path.join(src, p_)
+    env = e2v.tool_env(src)
+    img, qc, raw1, raw2 = (os.path.join(WORK, "g4_%d.%s" % (idx, x)) for x in ("img", "qcow", "raw1", "raw2"))
+    recipe = {"kind": "filesystem of 5 GiB, qcow2 and back", "mke2fs": ["-t", "ext4", "-b", "4096"], "case_index": 300000 + idx}
+    for p_ in (img, qc, raw1, raw2):
+        if os.path.exists(p_):
+            os.unlink(p_)
+    problems = []
+    rc, out = e2v.sh([T("misc/mke2fs"), "-q", "-F", "-t", "ext4", "-b", "4096", "-E", "lazy_itable_init=1,lazy_journal_init=1,nodiscard", img, "5G"], env=env, timeout=300)
+    e2v.sh([T("debugfs/debugfs"), "-w", "-R", "mkdir d", img], env=env, timeout=60)
+    if rc == 0:
+        rc1, _ = e2v.sh([T("misc/e2image"), "-r", img, raw1], env=env, timeout=600)
+        rc2, _ = e2v.sh([T("misc/e2image"), "-Q", img, qc], env=env, timeout=600)
+        rc3, _ = e2v.sh([T("misc/e2image"), "-r", qc, raw2], env=env, timeout=600)
+        if rc1 or rc2 or rc3:
+            problems.append("e2image exits %d / %d / %d (raw, qcow2, qcow2 to raw)" % (rc1, rc2, rc3))
+        else:
+            def data_segments(path):
+                segs, fd = [], os.open(path, os.O_RDONLY)
+                try:
+                    end, pos = os.fstat(fd).st_size, 0
+                    while pos < end:
+                        try:
+                            a = os.lseek(fd, pos, os.SEEK_DATA)
+                        except OSError:
+                            break
+                        b = os.lseek(fd, a, os.SEEK_HOLE)
+                        segs.append((a, b))
+                        pos = b
+                finally:
+                    os.close(fd)
+                return segs
+            with open(raw1, "rb") as f1, open(raw2, "rb") as f2:
+                for a, b in data_segments(raw1) + data_segments(raw2):
+                    pos = a
+                    while pos < b and not problems:
+                        n_ = min(1 << 20, b - pos)
+                        f1.seek(pos)
+                        f2.seek(pos)
+                        x, y = f1.read(n_), f2.read(n_)
+                        if x != y:
+                            k = next(i for i in range(min(len(x), len(y))) if x[i] != y[i]) if len(x) == len(y) else min(len(x), len(y))
+                            problems.append("the raw image made from the qcow2 image differs from the direct raw image at byte %d (block %d)" % (pos + k, (pos + k) // 4096))
+                        pos += n_
+                    if problems:
+                        break
+            if not problems and e2v.sh([T("e2fsck/e2fsck"), "-fn", raw2], env=env, timeout=600)[0] != 0:
+                problems.append("e2fsck -fn fails on the raw image made from the qcow2 image")
+    for p_ in (img, qc, raw1, raw2):
+        if os.path.exists(p_):
+            os.unlink(p_)
+    return recipe, problems, {}
+
+
 def one_case(src, mexe, idx, seed, tier):
+    if idx >= 300000:
+        return beyond_4g_case(src, idx - 300000, seed)
     if idx >= 200000:
         return trailing_hole_case(src, idx - 200000, seed)
     if idx >= 100000:
@@ -398,7 +456,7 @@ def run(res, replay=None):
                           "-I (install image), -b/-B (superblock options) and bigalloc/inline_data sources are outside the campaign"]
     n = 7 if tier == "quick" else 245
     nfull = 2 if tier == "quick" else 12
-    idxs = [json.load(open(replay))["recipe"]["case_index"]] if replay else list(range(n)) + [100000 + i for i in range(nfull)] + [200000 + i for i in range(2 if tier == "quick" else 8)]
+    idxs = [json.load(open(replay))["recipe"]["case_index"]] if replay else list(range(n)) + [100000 + i for i in range(nfull)] + [200000 + i for i in range(2 if tier == "quick" else 8)] + [300000]
     with concurrent.futures.ThreadPoolExecutor(6) as ex:
         outs = list(ex.map(lambda i: one_case(src, mexe, i, seed, tier), idxs))
     bad = []
